@@ -793,6 +793,12 @@ def primitives(x: Exc, f: FuncInfo, node: ast.AST, st, flow: KindFlow):
                 yield "str.format()", _argtext(recv), [KE, IE, VE]
             elif name == "to_bytes":
                 yield "int.to_bytes()", _argtext(recv), [OE]
+            elif name in ("fullmatch", "match", "search", "findall", "finditer", "sub", "subn", "split") and _is_regex_recv(recv) and args:
+                # a compiled pattern applied to a data value that may not be a string
+                subj = args[1] if name in ("sub", "subn") and len(args) > 1 else args[0]
+                ks = K(subj)
+                if ks != ALL and "O" not in ks and not ks <= _k("SY"):
+                    yield "re.match(non-str)", _argtext(subj) + "\x00" + "".join(sorted(ks)), [TE]
             # a str/list/dict-only method on a data value that may be something else
             if isinstance(recv, ast.Name) and "O" not in kr and name in HAS_METHOD and not kr <= _k(HAS_METHOD[name]):
                 yield f"attr .{name}", recv.id + "\x00" + "".join(sorted(kr)), [AE]
@@ -928,6 +934,12 @@ def _assert_implied_by_callers(x: Exc, f: FuncInfo, node: ast.Assert) -> bool:
                     if want not in {canon(k) for k in cs}:
                         return False
     return sites > 0
+
+
+def _is_regex_recv(e: ast.AST) -> bool:
+    """``RE_PROPERTY`` / ``self.re_vars`` / ``re_whitespace``: a compiled pattern by the repository's naming"""
+    nm = e.attr if isinstance(e, ast.Attribute) else e.id if isinstance(e, ast.Name) else ""
+    return nm.lower().startswith("re_")
 
 
 def _int_const(e):
